@@ -382,7 +382,7 @@ def judge_figure(case, rep, S):
                 seq = (seq * 2)[:rng.choice([219, 220, 221, 250])]
             rep.cnt("long_linear_plots")
         o = SP(seq)
-        w = rng.choice([1, 2, 5, 6, min(len(seq), 10)])
+        w = rng.choice([x for x in (1, 2, 5, 6, 10) if x <= len(seq)])        # only windows the sequence can hold
         getter = {"NCPR": "get_linear_NCPR", "FCR": "get_linear_FCR", "Sigma": "get_linear_sigma", "Hydropathy": "get_linear_hydropathy"}[which]
         prof = np.asarray(getattr(SP(seq), getter)(w), dtype=float)
         if save:
